@@ -778,6 +778,17 @@ func GenOptions(t *rapid.T, p Profile) OptPlan {
 		BundleSize:        rapid.SampledFrom([]int{16, 1, 4}).Draw(t, "bundle"),
 		CacheSize:         rapid.SampledFrom([]int64{1 << 20, 1 << 10, 64 << 10}).Draw(t, "cache"),
 	}
+	// Sometimes make score-based compactions unlikely (high L0 threshold, large
+	// Lbase) and the low-priority kinds likely: tombstone-density compactions
+	// (few tombstones make a block dense), read-triggered compactions.
+	if rapid.IntRange(0, 4).Draw(t, "lowprio") == 0 {
+		o.L0Compaction = rapid.SampledFrom([]int{6, 10, 20}).Draw(t, "l0chi")
+		o.L0CompactionFiles = 500
+		o.LBaseMaxBytes = 1 << 20
+		o.NumDel = rapid.SampledFrom([]int{1, 2, 5}).Draw(t, "numdel")
+		o.TombDense = rapid.SampledFrom([]int{1, 10, 50}).Draw(t, "tombdense")
+		o.ReadSampling = rapid.SampledFrom([]int{0, 1, -1}).Draw(t, "rsm")
+	}
 	o.DisableWAL = rapid.IntRange(0, 5).Draw(t, "nowal") == 0
 	o.WALDir = rapid.IntRange(0, 3).Draw(t, "waldir") == 0
 	o.DisableAutoCompaction = rapid.IntRange(0, 5).Draw(t, "noauto") == 0
